@@ -29,7 +29,10 @@ def counted_int(value):
     f = COUNTER['fail_at']
     if f is not None and f == k:
         raise ValueError('injected datatype failure at call %d' % k)
-    return int(value)
+    if isinstance(value, str):
+        return int(value)
+    from .symstr import sym_int        # symbolic token in the engine
+    return sym_int(value)
 
 
 def counted_section(value):
